@@ -222,7 +222,7 @@ def check_fragments(case) -> Result:
     except AttributeError as e:
         r.fail('matched-intensity fraction', 'C17/get_matched_intensity_percentage/AttributeError', error=str(e)[:120], **ctx)
         gv = None
-    if gv is not None and not (-1e-12 <= gv <= 1 + 1e-12):
+    if gv is not None and not (0 <= gv <= 1):
         r.fail('matched-intensity fraction lies in [0,1]', 'C17/get_matched_intensity_percentage/out-of-range', got=gv, **ctx)
     elif gv is not None and expv is not None and abs(gv - expv) > 1e-9:
         # matches carry the peak's m/z and intensity but not its index; the library keys the matched peaks by m/z
@@ -301,9 +301,13 @@ def fragments_strategy():
         peptide = s[:k + 1] + draw(mods) + s[k + 1:]
         npk = draw(st.integers(0, 12))
         peaks = [[draw(st.integers(0, 40)), draw(st.sampled_from([0.0, 0.0, 0.001, -0.001, 0.01, -0.02, 0.3, 0.5, -0.5])),
-                  draw(st.sampled_from([1.0, 2.0, 5.0, 5.0, 10.0, 0.0]))] for _ in range(npk)]
-        noise = [[draw(st.floats(50, 1200, allow_nan=False)), draw(st.sampled_from([1.0, 3.0, 7.0]))]
+                  draw(st.sampled_from([1.0, 2.0, 5.0, 5.0, 10.0, 0.0, 0.3, 3.3, 0.1, 0.7]))] for _ in range(npk)]
+        noise = [[draw(st.floats(50, 1200, allow_nan=False)), draw(st.sampled_from([1.0, 3.0, 7.0, 0.3, 0.1]))]
                  for _ in range(draw(st.integers(0, 4)))]
+        if draw(st.integers(0, 5)) == 2:
+            # every peak is matched: the fraction is exactly 1 (sums of intensities given as a mixture of int and float, taken in two orders, differ in the last bit)
+            peaks = [[draw(st.integers(0, 40)), 0.0, draw(st.sampled_from([0.3, 3.3, 5, 1, 0.1, 2, 0.7, 3, 1.1]))] for _ in range(draw(st.integers(2, 8)))]  # whole numbers as int
+            noise = []
         typ = draw(st.sampled_from(['th', 'ppm']))
         tol = draw(st.sampled_from([0.0, 0.005, 0.02, 0.5, 1.0])) if typ == 'th' else draw(st.sampled_from([0.0, 5.0, 20.0, 1000.0]))
         return {'peptide': peptide, 'ion_types': draw(st.sampled_from([['b'], ['y'], ['b', 'y'], ['a', 'b', 'y']])),
